@@ -14,6 +14,7 @@ func All() map[string]core.Prop {
 		"C07": C07{},
 		"C13": C13{},
 		"C15": C15{},
+		"C16": C16{},
 		"C17": C17{},
 		"C19": C19{},
 	}
